@@ -1019,21 +1019,22 @@ func (g *schemaGenerator) defaultPropertyValue(prop *schemas.Type) any {
 			return prop.Default
 		}
 
+		// The literal has the type of the field, a map of the value type; it keeps the entries of the default.
 		switch prop.AdditionalProperties.Type[0] {
 		case schemas.TypeNameString:
-			return map[string]string{}
+			return typedMapDefault(prop.Default, func(v string) string { return v })
 
 		case schemas.TypeNameArray:
 			return map[string][]any{}
 
 		case schemas.TypeNameNumber:
-			return map[string]float64{}
+			return typedMapDefault(prop.Default, func(v float64) float64 { return v })
 
 		case schemas.TypeNameInteger:
-			return map[string]int{}
+			return typedMapDefault(prop.Default, func(v float64) int { return int(v) })
 
 		case schemas.TypeNameBoolean:
-			return map[string]bool{}
+			return typedMapDefault(prop.Default, func(v bool) bool { return v })
 
 		default:
 			return prop.Default
@@ -1041,6 +1042,21 @@ func (g *schemaGenerator) defaultPropertyValue(prop *schemas.Type) any {
 	}
 
 	return prop.Default
+}
+
+// typedMapDefault turns the default of a map-typed property, as decoded from the schema, into a map of the
+// Go value type. Entries whose value has another type than the schema asks for are left out.
+func typedMapDefault[J, T any](def any, conv func(J) T) map[string]T {
+	typed := map[string]T{}
+
+	entries, _ := def.(map[string]any)
+	for k, v := range entries {
+		if j, ok := v.(J); ok {
+			typed[k] = conv(j)
+		}
+	}
+
+	return typed
 }
 
 // maxTypeNesting bounds how deep the generation of one type may descend into the types it contains.
